@@ -973,6 +973,32 @@ def stage_schedules(chk, bins, nthreads, steps, mixed=False):
                            "completed": (ev or {}).get("completed"), "repeated": (ev or {}).get("repeated"), "line": line, "info": info})
 
 
+def stage_temp_adv(chk, bins, variant):
+    """A fresh process: adversarial requests (splits of early names into part and counter value) and name parts that are different
+    texts for the same path; only the property itself - Unique and the name part over every returned path - is validated."""
+    tpath = os.path.join(chk.work, "tempadv_%s.ndjson" % variant)
+    out = chk.run_harness(bins[variant], ["record", "tempadv", "--seed", str(chk.seed), "--tier", chk.tier, "--out", tpath], "record adversarial temp names on %s" % variant)
+    if out is None:
+        return
+    ok, info, res = vlib.validate_trace(chk.work, "T_tempadv_%s" % variant.replace("-", "_"), "TraceTemp", tpath, defs="ProgDef == << >>", cfg_extra=" Program <- ProgDef\n")
+    chk.add_tlc(res, "validate adversarial temp names on %s (Unique and name part over every returned path)" % variant, {"events": out["stats"].get("events"), "accepted": ok})
+    if ok:
+        chk.cov["traces_validated_against_impl"] += 1
+        chk.cov["evaluations"] += out["stats"].get("queries", 0)
+        return
+    line = info.get("unmatched_line")
+    keep = os.path.join(vlib.OUT_BASE, "replays", chk.pid)
+    os.makedirs(keep, exist_ok=True)
+    kept = os.path.join(keep, "tempadv_%s.ndjson" % variant)
+    with open(tpath) as f, open(kept, "w") as g:
+        for i, l in enumerate(f, 1):
+            if line and i > line:
+                break
+            g.write(l)
+    chk.violation("trace tempadv rejected by TraceTemp", {"kind": "trace", "scenario": "tempadv", "variant": variant, "line": line, "event": vlib.trace_line(tpath, line) if line else None,
+                                                          "info": info, "trace": kept, "tlc_tail": res.out[-800:]})
+
+
 def check_C20(chk):
     import re
     bins = vlib.build_harness(["dbg-native", "rel-native"])
@@ -1042,6 +1068,7 @@ def check_C20(chk):
     if not chk.violations:
         for v in ("dbg-native", "rel-native"):
             stage_temp_trace(chk, bins, v, 2 if chk.thorough else 1, progdef, modelled)
+        stage_temp_adv(chk, bins, "dbg-native")
     return chk.finish(rule="schedules = (a) all interleavings of the atomic primitives of the counter program extracted from the code, for small thread/call "
                            "counts (TLC on mech/TempName, exhaustive); (b) every order of steps of 2-4 concurrent calls generated by mech/Sched and enforced "
                            "on the real code through the counter gates; (c) recorded stress runs (8 x 500 / 16 x 2000 calls, the counter moved to 2^16, "
